@@ -1,3 +1,4 @@
+import collections
 import datetime
 import decimal
 import os
@@ -79,6 +80,7 @@ class SQLDumper(DumperBase):
         self.updated_id_column = updated_id_column
         self.batch_size = options.get('batch_size', 1000)
         self.use_bloom_filter = options.get('use_bloom_filter', True)
+        self.original_values = collections.deque()
 
     def normalize_for_engine(self, dialect, resource, schema_descriptor):
         actions = {}
@@ -88,9 +90,15 @@ class SQLDumper(DumperBase):
                 actions.setdefault(field['name'], []).extend(OBJECT_FIXERS[dialect])
 
         for row in resource:
-            for name, action_list in actions.items():
-                for action in action_list:
-                    row[name] = action(row.get(name))
+            if actions:
+                # the DB gets a normalised copy; the values themselves continue downstream as they are
+                self.original_values.append(dict((name, row.get(name)) for name in actions))
+                row = dict(row)
+                for name, action_list in actions.items():
+                    if row.get(name) is None:
+                        continue
+                    for action in action_list:
+                        row[name] = action(row[name])
 
             yield row
 
@@ -141,6 +149,8 @@ class SQLDumper(DumperBase):
 
     def get_output_row(self, written):
         row, updated, updated_id = written.row, written.updated, written.updated_id
+        if self.original_values:
+            row.update(self.original_values.popleft())
         if self.updated_column:
             row[self.updated_column] = updated
         if self.updated_id_column:
